@@ -70,6 +70,14 @@ func (fr *Frame) callValue(st *State, fnv Value, ft types.Type, args []Value, in
 func (fr *Frame) callStatic(st *State, fn *ssa.Function, bind []Value, args []Value, in ssa.Instruction) (Value, error) {
 	r := fr.run
 	name := r.eng.fnName(fn)
+	if r.eng.specs.Funcs[name] == nil || r.eng.specs.Funcs[name].Opts["inline"] {
+		// calls that are not made through a contract still serve as anchors for ghost assertions
+		if fr.depth == 0 {
+			if _, err := fr.atCallGhost(name, nil, nil, st); err != nil {
+				return nil, err
+			}
+		}
+	}
 	if v, handled, err := fr.intrinsic(st, name, fn, args, in); handled {
 		return v, err
 	}
@@ -593,28 +601,9 @@ func (fr *Frame) callContract(st *State, ct *FuncContract, fn *ssa.Function, sig
 		site = posLabel(r, in.Pos())
 	}
 	calleeShort := ct.Name
-	k := fr.callCount[calleeShort]
-	fr.callCount[calleeShort] = k + 1
-	// ghost assertions placed at this call in the caller's contract
-	if fr.contract != nil {
-		for _, cl := range fr.contract.AtCall {
-			if cl.Call == calleeShort && cl.CallK == k && r.active(cl.Tags) {
-				callerNames := map[string]Value{}
-				for i, n := range pn {
-					if i < len(args) {
-						callerNames["$"+n] = args[i]
-					}
-				}
-				g, err := fr.evalBool(cl.E, st, callerNames)
-				if err != nil {
-					return nil, fmt.Errorf("at call %s#%d %s: %v", calleeShort, k, cl.Label, err)
-				}
-				if cl.Kind == "assert" {
-					r.addOblig(&Oblig{Name: fr.oblName("assert", fmt.Sprintf("%s#%d.%s", calleeShort, k, cl.Label)), Kind: "assert", Func: r.eng.fnName(fr.fn), Label: cl.Label, Tags: cl.Tags, Text: cl.Text, Guard: st.guard, Goal: g})
-				}
-				r.assume(st, g)
-			}
-		}
+	k, err := fr.atCallGhost(calleeShort, pn, args, st)
+	if err != nil {
+		return nil, err
 	}
 	pre := st.clone()
 	env := &evalEnv{fr: fr, st: st, old: pre, names: names, lets: lets, callee: true}
@@ -624,7 +613,7 @@ func (fr *Frame) callContract(st *State, ct *FuncContract, fn *ssa.Function, sig
 		if err != nil {
 			return nil, fmt.Errorf("requires %s of %s: %v", cl.Label, ct.Name, err)
 		}
-		if r.dry == 0 && !ct.Opts["nopre"] {
+		if r.dry == 0 && !ct.Opts["nopre"] && !r.faults {
 			r.addOblig(&Oblig{Name: fr.oblName("pre@call", fmt.Sprintf("%s#%d.%s", calleeShort, k, cl.Label)), Kind: "pre@call", Func: r.eng.fnName(fr.fn), Label: cl.Label, Tags: cl.Tags, Text: cl.Text + "   [call at " + site + "]", Guard: st.guard, Goal: g})
 		}
 		r.assume(st, g)
@@ -674,6 +663,46 @@ func (fr *Frame) callContract(st *State, ct *FuncContract, fn *ssa.Function, sig
 		fr.rebindFromExpr(cl.E, st, env)
 	}
 	return packResults(results), nil
+}
+
+// atCallGhost counts the call and proves/assumes the ghost assertions the caller's
+// contract anchors at it ("at call <callee>#k assert ...").
+func (fr *Frame) atCallGhost(calleeShort string, pn []string, args []Value, st *State) (int, error) {
+	r := fr.run
+	k := fr.callCount[calleeShort]
+	fr.callCount[calleeShort] = k + 1
+	if fr.contract == nil {
+		return k, nil
+	}
+	for _, cl := range fr.contract.AtCall {
+		if cl.Call == calleeShort && cl.CallK == k && r.active(cl.Tags) {
+			callerNames := map[string]Value{}
+			for i, n := range pn {
+				if i < len(args) {
+					callerNames["$"+n] = args[i]
+				}
+			}
+			g, err := fr.evalBool(cl.E, st, callerNames)
+			if err != nil {
+				return k, fmt.Errorf("at call %s#%d %s: %v", calleeShort, k, cl.Label, err)
+			}
+			if cl.Kind == "assert" {
+				r.addOblig(&Oblig{Name: fr.oblName("assert", fmt.Sprintf("%s#%d.%s", calleeShort, k, cl.Label)), Kind: "assert", Func: r.eng.fnName(fr.fn), Label: cl.Label, Tags: cl.Tags, Text: cl.Text, Guard: st.guard, Goal: g})
+			}
+			r.assume(st, g)
+			if b, ok := cl.E.(*EBin); ok && b.Op == "==" {
+				if sel, ok := b.X.(*ESel); ok {
+					env := &evalEnv{fr: fr, st: st, old: fr.entry}
+					base, err1 := fr.evalExpr(sel.X, env)
+					rhs, err2 := fr.evalExpr(b.Y, env)
+					if err1 == nil && err2 == nil {
+						fr.rebind(st, base, sel.Name, rhs)
+					}
+				}
+			}
+		}
+	}
+	return k, nil
 }
 
 // postState implements the heap after a call made through a contract, without
